@@ -313,9 +313,17 @@ func (P *Program) replayOnCode(o *Obligation, model map[string]string) map[strin
 	var fix []string
 	if len(lenLeaves) > 0 {
 		g.leaves = lenLeaves
-		if !g.runGetValue(o, nil) {
-			out["skipped"] = g.fail
-			return out
+		// bias towards small, replayable models first
+		var small []string
+		for _, l := range lenLeaves {
+			small = append(small, sx("<=", l.term, "6"))
+		}
+		if !g.runGetValue(o, small) {
+			g.fail = ""
+			if !g.runGetValue(o, nil) {
+				out["skipped"] = g.fail
+				return out
+			}
 		}
 		for _, l := range lenLeaves {
 			if n, ok := parseIntVal(g.vals[l.name]); ok {
